@@ -1,10 +1,12 @@
 import Dashu.Gen.SizeGuards
 import Dashu.Gen.Scratch
 import Dashu.Model.Panic.Guards5
+import Dashu.Model.Trans.Powi
 /-
   Tie A theorems for C16, round 5: the size arithmetic in front of the allocations of `pow_word_base`, `pow_dword_base`
   (`Gen/Scratch.lean`, regenerated from integer/src/pow.rs), `Repr::from_chunks`, `max_exp_in_word` and the rational
-  `Repr::to_float` (`Gen/SizeGuards.lean`, regenerated from convert.rs / math.rs / dashu_float.rs on this run) equal the
+  `Repr::to_float`, the float `Context::powi` working precisions (`Gen/SizeGuards.lean`, regenerated from convert.rs / math.rs /
+  dashu_float.rs / exp.rs on this run) equal the
   definitions that `Model/Panic/Guards5.lean` mirrors by hand — the ones the driver executes and `Props/C16.lean` proves
   (S1)/(S2) about.  A changed factor, offset, comparison or assertion in the Rust text changes the regenerated
   definition and these theorems stop checking.  Core Lean only.
@@ -100,6 +102,25 @@ theorem to_float_need_digits_in_usize (p nd dd : Nat) :
   · intro h; exact Nat.min_eq_right (Nat.le_of_lt h)
 
 example : to_float_shift usizeMax usizeMax 0 1 = usizeMax := by decide   -- RBig 1/10 at precision usize::MAX (the old witness)
+/-- `Context::powi` (float/src/exp.rs): the two working precisions `precision + guard_bits` (negative exponent) and
+    `precision + guard_digits`, regenerated from the source text, are the mirrored ones `fPowiPrecisionFits` tests -/
+theorem powi_precision_is_generated (p e : Nat) :
+    powi_rev_precision bitLen p = fPowiRevPrecision p ∧ powi_work_precision bitLen p e = fPowiWorkPrecision p e :=
+  ⟨rfl, rfl⟩
+
+/-- link to C11: the working precision is the one C11's model of the non-negative branch (`Model/Trans/Powi.lean`, the subject
+    of C11's error theorem) runs its loop at -/
+theorem powi_work_precision_is_c11s (p e : Nat) (he : 1 ≤ e) :
+    fPowiWorkPrecision p e = Dashu.Model.Trans.powiWorkPrec p (Dashu.Model.Trans.lowBits e) := by
+  unfold fPowiWorkPrecision Dashu.Model.Trans.powiWorkPrec Dashu.Model.Trans.lowBits
+  have hb : Dashu.Model.Trans.bitLen e = bitLen e := rfl
+  have hp : Dashu.Model.Trans.bitLen p = bitLen p := rfl
+  have h1 : 1 ≤ bitLen e := by
+    unfold bitLen; have : e ≠ 0 := by omega
+    simp [this]
+  simp only [List.length_map, List.length_reverse, List.length_range, hb, hp]
+  omega
+
 example : from_chunks_result_len 1 3 8 = 18 := by decide
 example : max_exp_shortcut 64 (2 ^ 32) = true ∧ max_exp_shortcut 64 (2 ^ 32 - 1) = false := by decide
 example : max_exp_start bitLen 64 10 = 16 := by decide
